@@ -275,7 +275,9 @@ fn get_imsaak(
     // Imsaak follows the Fajr that is actually reported: when that Fajr is extreme, so is Imsaak.
     let is_extreme =
         |hours: &HashMap<Prayer, Result<PrayerHour, ()>>| hours[&Fajr].map_or(false, |x| x.extreme);
-    if is_extreme(&hours) || is_extreme(&get_hours_adj_ext(params, top_astro_day, weather)) {
+    let fallback =
+        is_extreme(&hours) || is_extreme(&get_hours_adj_ext(params, top_astro_day, weather));
+    if fallback {
         params_adj = params.clone();
         *params_adj.minutes.get_mut(&Fajr).unwrap() -= if params.intervals[&Imsaak] == 0. {
             Params::DEF_IMSAAK_ANGLE
@@ -286,7 +288,12 @@ fn get_imsaak(
         hours = get_hours_adj_ext(&params_adj, top_astro_day, weather);
     }
 
-    hours[&Fajr].map(|x| to_prayer_time(&params_adj, Fajr, x))
+    // An Imsaak taken from the fallback is not a conventional time: flag it, also when the reported
+    // Fajr itself is conventional (only the larger Imsaak angle is out of the Sun's reach).
+    hours[&Fajr].map(|x| PrayerTime {
+        extreme: x.extreme || fallback,
+        ..to_prayer_time(&params_adj, Fajr, x)
+    })
 }
 
 fn to_prayer_time(params: &Params, prayer: Prayer, prayer_hour: PrayerHour) -> PrayerTime {
